@@ -30,7 +30,7 @@ def inject(rng, d):
     by = lambda ts: [n for n in nodes if n[1] in ts]
     kind = rng.choice(["fanin_on_source", "fanin_on_source", "second_driver", "bbout_load", "bbout_nonbuf", "untype", "unsup",
                        "dotted", "drop_pin", "mistype_pin", "undriven", "unloaded", "single_in", "harmless_edge", "harmless_out",
-                       "registry_only", "pin_extra_fanout", "multi_dot_clean", "multi_dot_clean", "dotted_instance"])
+                       "registry_only", "pin_extra_fanout", "multi_dot_clean", "multi_dot_clean", "dotted_instance", "swap_pin", "swap_pin"])
     if kind == "fanin_on_source":
         c = by(["input", "0", "1", "x", "bb_output"])
         if c and rng.random() < 0.5:
@@ -102,6 +102,19 @@ def inject(rng, d):
             inst = fresh(names, "core.u0")
             nodes.append([inst + ".d", "bb_input", False, [rng.choice(src)]])
             d["bbs"] = d.get("bbs", []) + [[inst, "ff", ["d"], []]]
+    elif kind == "swap_pin":
+        # a pin that carries the OPPOSITE pin type while every per-node rule stays satisfied: only the registry check can object
+        fo = {f for m in nodes for f in m[3]}
+        ins = [n for n in nodes if n[1] == "bb_input" and "." in n[0] and n[0] not in fo]
+        outs = [n for n in nodes if n[1] == "bb_output" and "." in n[0]]
+        if ins and (not outs or rng.random() < 0.5):
+            n = rng.choice(ins); n[1] = "bb_output"; n[3] = []          # declared input typed bb_output: no driver, no load
+        elif outs:
+            n = rng.choice(outs)
+            for m in nodes:                                              # detach its load, then type it bb_input with one driver
+                m[3] = [f for f in m[3] if f != n[0]]
+            src = [m[0] for m in nodes if m[1] == "input"]
+            n[1] = "bb_input"; n[3] = [rng.choice(src)] if src else []
     elif kind == "pin_extra_fanout":
         c = by(["bb_input"])
         if c:
@@ -167,7 +180,8 @@ def gen_raw(rng):
 
 PRODUCERS = ["limit_fanin", "limit_fanout", "ternary", "miter", "half_adder", "full_adder", "adder", "mux", "popcount",
              "strip_blackboxes", "copy", "relabel", "fill_nested", "subcircuit_nested", "fill_nested", "subcircuit_nested",
-             "unroll", "insert_registers", "acyclic_unroll", "sensitization", "verilog_roundtrip", "bench_roundtrip"]
+             "unroll", "insert_registers", "acyclic_unroll", "sensitization", "verilog_roundtrip", "bench_roundtrip",
+             "remove_unloaded", "remove_unloaded"]
 
 
 def gen_produced(rng):
@@ -198,6 +212,21 @@ def gen_produced(rng):
     elif fn in ("unroll", "insert_registers", "sensitization", "verilog_roundtrip", "bench_roundtrip"):
         case["circuit"] = lib.rand_dag(rng, rng.randint(2, 3), rng.randint(2, 6), max_fanin=3, p_const=0.2 if fn.endswith("roundtrip") else 0.0)
         case["k"] = rng.randint(1, 2)
+    elif fn == "remove_unloaded":
+        # flop whose q buffer feeds only a dead (unloaded, non-output) cone, next to live logic
+        d = lib.rand_dag(rng, rng.randint(2, 3), rng.randint(1, 4), max_fanin=3)
+        d = lib.add_flop(rng, d, inst="ff0", unconnected=rng.random() < 0.3)
+        for n in d["nodes"]:
+            if n[0] == "ff0_qbuf":
+                n[2] = False
+        d["nodes"] = [[n, t, o, [f for f in fi]] for n, t, o, fi in d["nodes"]]
+        used = {f for n in d["nodes"] for f in n[3]}
+        if "ff0_qbuf" not in used or rng.random() < 0.7:
+            d["nodes"].append(["dbg0", "not", False, ["ff0_qbuf"]])
+            if rng.random() < 0.5:
+                d["nodes"].append(["dbg1", "buf", False, ["dbg0"]])
+        case["circuit"] = d
+        case["k"] = rng.randint(0, 1)
     elif fn == "acyclic_unroll":
         d = lib.rand_dag(rng, rng.randint(1, 3), rng.randint(2, 5), types=lib.MULTI, max_fanin=3, allow_single_multi=False)
         gates = [n for n in d["nodes"] if n[1] in lib.MULTI]
@@ -279,6 +308,11 @@ def impl(case):
             else:
                 par.add_subcircuit(ch, inst, conns)
             r = par
+        elif fn == "remove_unloaded":
+            if _lint(c) != "ok":
+                return {"producer_exc": "precondition"}
+            c.remove_unloaded(inputs=bool(case["k"]) and not c.blackboxes)
+            r = c
         elif fn == "unroll":
             outs = sorted(c.outputs() - c.inputs()); ins = sorted(c.inputs())
             if not outs or len(ins) < 2:
